@@ -11,6 +11,7 @@ TRUSTED = [
     "tools/extract: route table of main(); the admin mux (/readyz, /admin/inject) is driven through the handler functions directly, and once behind real TLS / plain HTTP listeners configured like main()'s admin server",
     "the auto-unseal path is driven through loadVerifyConfigFile -> autoUnsealAwsLoop -> aws-sdk-go against a fake cloud inside the test process (instance-metadata service via AWS_EC2_METADATA_SERVICE_ENDPOINT; a TLS listener speaking secretsmanager.GetSecretValue under a throw-away CA, reached through the dialer and root pool of the test binary's http.DefaultTransport); only the loop's first attempt is observed",
     "regenerated table pubkey_writes (tools/extract/c09_pubkeys.go): shape of every assignment to KeymasterPublicKeys, syntactic (append(list, e.Public()) under the lexically held mutex)",
+    "the handshake model Model.Seal.handshake (which tls.Config.ClientAuth policy turns which presented certificate into which PeerCertificates / VerifiedChains, or refuses the handshake) is a model of crypto/tls, tied by the listener cases (8 quick, 75 thorough) only; certificates are names, a certificate verifies iff its issuer is in the pool and it has not expired; the handler-level connection records are built by the harness from real x509.Certificate values, the handler itself never verifies anything",
     "stage (e): time knobs are found by reflection over AppConfigFile (time.Duration fields, integer fields named after seconds / intervals); a periodic activity configured in any other way is not reached",
 ]
 
@@ -28,13 +29,28 @@ def corr(ctx, res, name, label, idxfile, prefix):
                 first = line.strip()
     ctx.broken.append(("correspondence", name, {"label": label, "first_mismatch": first, "indices": (mism or "")[:400]}))
 
+def model_oracle(ctx, res, name, idxfile, prefix, cls, oracle, what):
+    """round 2: the indices of `name` are cases whose OBSERVATION violates the property's predicate as evaluated
+    inside Coq; the first one becomes an oracle hit that carries its input (the .idx line)"""
+    viol = res.get(name) or "[]"
+    for i in [int(x) for x in re.findall(r"\d+", viol)][:1]:
+        line = None
+        if os.path.exists(idxfile):
+            for ln in open(idxfile):
+                if ln.startswith("%s %d\t" % (prefix, i)):
+                    line = ln.strip()
+        ctx.hits.append({"key": "C09:model-oracle:" + cls, "oracle": oracle, "what": what,
+                         "case": {"case": line}, "observed": {"violating_cases": viol[:400]}})
+
 def run(ctx):
-    ctx.audit("Props.C09", ["c09_sealed_inert", "c09_only_right_pass", "c09_wrong_pass_unchanged", "c09_no_chain_unchanged",
+    ctx.audit("Props.C09", ["c09_sealed_inert", "c09_only_right_pass", "c09_presented_irrelevant", "c09_presented_only_refused", "c09_presented_suffices_refuted",
+                            "c09_any_listener", "c09_unverifying_listener_never_unseals", "c09_observation_predicate_sound",
+                            "c09_wrong_pass_unchanged", "c09_no_chain_unchanged",
                             "c09_refused_unchanged", "c09_refused_still_sealed", "c09_accepted_iff", "c09_auto_unseal_refused_unchanged", "c09_auto_unseal_only_right_pass", "c09_old_refused_changes_state_refuted",
                             "c09_once_sequential", "c09_once", "c09_no_half_init", "c09_unseal_is_its_body", "c09_published",
                             "c09_published_stable", "c09_writers_keep", "c09_stale_replace_refuted"])
     gen = ctx.extract()
-    files = ["kmd/common.go", "kmd/creds.go", "kmd/c09.go", "kmd/c09pub.go", "kmd/c09aws.go", os.path.join(ctx.work, "gen", "mux_gen.go")]
+    files = ["kmd/common.go", "kmd/creds.go", "kmd/c09.go", "kmd/c09conn.go", "kmd/c09pub.go", "kmd/c09aws.go", os.path.join(ctx.work, "gen", "mux_gen.go")]
     ok, result, log = ctx.go_harness("cmd/keymasterd", "TestVerif_C09", files, timeout=1500)
     ok2, result2, log2 = ctx.go_harness("cmd/keymasterd", "TestVerif_C09Race", files, race=True, timeout=1800)
     nrace = racelog.absorb(ctx, log2, "C09")
@@ -58,6 +74,16 @@ def run(ctx):
             idx = os.path.join(ctx.work, "CasesC09.idx")
             n = res.get("c09_ncases", "?")
             corr(ctx, res, "c09_seq_mismatches", "injection sequences: status, readyz, signer/Ed25519/CA/public-key/ready-message counts after every step = Model.Seal.inject_run (%s cases in file)" % n, idx, "seq")
+            model_oracle(ctx, res, "c09_seq_violating_chain", idx, "seq", "unsealed-without-verified-chain",
+                         "c09_only_right_pass evaluated (inside Coq, Model.Seal.seq_violation; sound on the model by c09_observation_predicate_sound) on the observed injection sequence",
+                         "after an injection whose connection record (http.Request.TLS) has no verified chain with a leaf - nil, empty, or certificates that were only PRESENTED - the real server is unsealed")
+            model_oracle(ctx, res, "c09_seq_violating_pass", idx, "seq", "unsealed-with-wrong-passphrase",
+                         "c09_only_right_pass evaluated (inside Coq, Model.Seal.seq_violation) on the observed injection sequence",
+                         "after an injection whose field is not exactly the passphrase of the key file the real server is unsealed")
+            corr(ctx, res, "c09_over_mismatches", "the injection handler behind crypto/tls listeners of each ClientAuth policy x presented certificate (none / self-signed / foreign CA / expired / admin) x passphrase: reached the handler, status, signer afterwards = Model.Seal.inject_over (handshake model + inject)", idx, "over")
+            model_oracle(ctx, res, "c09_over_violating", idx, "over", "unverified-cert-over-listener",
+                         "c09_any_listener evaluated (inside Coq, Model.Seal.over_case_violates) on the observed outcome of a request over a real crypto/tls listener",
+                         "the server is unsealed after a request over a listener that does not verify client certificates, or with a certificate that does not verify against the client CA pool, or with a wrong passphrase")
             corr(ctx, res, "c09_pub_mismatches", "published keys polled over time after the injection, every time knob of the configuration tiny, many foreign keys listed = the state the injection left (Model.Seal.poll_ok)", idx, "pub")
             # round 2: a round in which a poll saw a signing key unpublished is a failing input
             viol = res.get("c09_pub_violating") or "[]"
